@@ -1447,7 +1447,27 @@ fn main() {
             continue;
         }
         match item {
-            Item::Impl(imp) => { handle_impl(&mut cx, imp, &wanted); }
+            Item::Impl(imp) => {
+                // associated constants of an inherent impl, selected as `--items Type::NAME`
+                if imp.trait_.is_none() {
+                    let ty = norm(&imp.self_ty);
+                    for ii in imp.items.iter() {
+                        if let ImplItem::Const(c) = ii {
+                            let qn = format!("{}::{}", ty, c.ident);
+                            if o.items.iter().any(|x| *x == qn) {
+                                let (cty, cex) = (&c.ty, &c.expr);
+                                let (sty, ident) = (&imp.self_ty, &c.ident);
+                                cx.out.push_str(&format!("//@vx-item {} src={}\n", qn, o.src));
+                                // R-ASSOCCONST: `const N: T = e;` is printed as `exec const N: T ensures Self::N == e { e }` (a dual-mode Verus constant may not cast an enum)
+                                cx.out.push_str(&format!("impl {} {{ pub exec const {} : {} ensures Self :: {} == {} {{ {} }} }}\n", quote::quote!(#sty), ident, quote::quote!(#cty), ident, quote::quote!(#cex), quote::quote!(#cex)));
+                                cx.p.log.push(format!("RULE R-ASSOCCONST {}", qn));
+                                cx.found.push(qn);
+                            }
+                        }
+                    }
+                }
+                handle_impl(&mut cx, imp, &wanted);
+            }
             // provided (default-bodied) methods of a trait: extracted like free functions of the monomorphised Self type
             Item::Trait(tr) => {
                 for ti in tr.items.iter() {
